@@ -439,7 +439,31 @@ class Impl:
             f, self.iid(fit.ship), self.iid(fit.character), self.iid(fit.stance), self.iid(fit.effect_beacon),
             s(fit.skills), skillmap, s(fit.implants), s(fit.boosters), s(fit.subsystems), s(fit.rigs),
             s(fit.drones), s(fit.fighters), r(fit.modules.high), r(fit.modules.mid), r(fit.modules.low),
-            ssid, flid, stale)
+            ssid, flid, stale + self.fleet_side(fit))
+
+    def fleet_side(self, fit):
+        """a fleet lists a fit exactly when the fit names that fleet (both sides of the same relation)"""
+        out = ''
+        for k, fl in sorted(self.fleets.items()):
+            try:
+                listed = any(x is fit for x in fl.fits)
+                ok = listed == (fit.fleet is fl) and listed == (fit in fl.fits)
+                n = len(fl.fits) == len(list(fl.fits))
+            except Exception as e:  # noqa
+                out += ' STALE-FLEET(%d:%s)' % (k, type(e).__name__)
+                continue
+            if not ok or not n:
+                out += ' STALE-FLEET(%d)' % k
+        for k, ss in sorted(self.sss.items()):
+            try:
+                listed = any(x is fit for x in ss.fits)
+                ok = listed == (fit.solar_system is ss) and listed == (fit in ss.fits)
+            except Exception as e:  # noqa
+                out += ' STALE-SOLSYS(%d:%s)' % (k, type(e).__name__)
+                continue
+            if not ok:
+                out += ' STALE-SOLSYS(%d)' % k
+        return out
 
     # -- implementation-only observations (not understood by the model driver) -------
     def stats_dump(self, f):
